@@ -684,6 +684,13 @@ class Emitter:
             # `a | b` on bool: both operands are evaluated (no short circuit), which they have been here
             return k({"|": "(%s || %s)", "&": "(%s && %s)", "^": "(xorb %s %s)"}[op] % (a, b), BOOL, env)
         if not is_int(ty):
+            hook = self.v.get("arith_hook")
+            if hook is not None:
+                # optional vocabulary key `arith_hook`: callable(em, op, a, b, ty, env, k) -> code | None for an
+                # operator on a type that is no integer (`String + &str`)
+                r = hook(self, op, a, b, ty, env, k)
+                if r is not None:
+                    return r
             if op == "|" and ty[0] == "struct":
                 bo = self.v["structs"][ty[1]].get("bitor")
                 if bo:
@@ -1175,6 +1182,13 @@ class Emitter:
         raise EmitError("refutable or unsupported pattern %s in let" % pat.kind)
 
     def let_stmt(self, s, env, rest):
+        if s.init is None and s.els is None and s.pat.kind == "pident":
+            # optional vocabulary key `deferred_init: {fn: {local: (type, term)}}`: `let x;` assigned later on every path
+            # that reads it (rustc checks definite initialisation): a mutable local that starts as the placeholder `term`
+            di = self.v.get("deferred_init", {}).get(getattr(self, "cur_fn", None), {}).get(s.pat.name)
+            if di is not None:
+                n = self.fresh(s.pat.name)
+                return "let %s := %s in\n%s" % (n, di[1], rest(env.bind(s.pat.name, n, di[0], True)))
         if s.init is None or s.els is not None:
             raise EmitError("let without initialiser / let-else")
         ann = self.ty_of_ast(s.ty) if s.ty is not None else None
